@@ -1061,6 +1061,72 @@ class Interp:
         after.conds = after.conds[:len(s.conds)] if after is not s else after.conds
         return [(after, ("tuple", ()))]
 
+    # ------------------------------------------------------------------ iterator adaptors driven by closures
+    def call_closure(self, frame, s, clos, argvals):
+        """Evaluate the body of a closure value in the environment of the frame that created it."""
+        cb = self.u.bodies.get(clos[1])
+        if cb is None or cb.thir is None:
+            raise Unsupported("closure body not exported: %s" % (clos[1],))
+        fr = Frame(cb, frame.tsub, frame.depth)
+        fr.uid = clos[2]                      # upvars are the creator's locals
+        params = [p for p in cb.thir["params"] if "pat" in p]
+        for p_, a in zip(params, argvals):
+            self.bind(s, fr, p_["pat"], a)
+        res = list(self.ev(fr, cb.thir["root"], s))
+        for (s2, kind, v) in fr.done:
+            if kind == "ret":
+                res.append((s2, v))
+            else:
+                frame.done.append((s2, kind, v))
+        return res
+
+    def closure_loop(self, frame, s, e, itv, clos, mode):
+        """`it.map(f).collect()`, `it.try_for_each(f)`, `it.for_each(f)`: one symbolic iteration of the closure body,
+        summarised exactly like a `for` loop over the same iterator."""
+        s.nloops += 1
+        lid = s.nloops
+        cnt, elem = self.iter_info(itv)
+        if cnt is None:
+            cnt = ("itercount", lid, itv)
+        if elem == "index":
+            elemv = ("loopidx", lid)
+        else:
+            elemv = ("elem", elem[1], lid)
+        outer_events = s.events
+        s.events = []
+        nconds = len(s.conds)
+        res = self.call_closure(frame, s, clos, [elemv])
+        if not res:
+            s.events = outer_events
+            return []
+        bodies = [((tuple(bs.conds[nconds:]) if bs is not s else ()), tuple(bs.events)) for (bs, _v) in res]
+        after, val = res[0]
+        body_events = bodies[0][1] if len(bodies) == 1 else ("alt", tuple(bodies))
+        after.events = outer_events + [("Loop", cnt, body_events, lid, frame.crate.span(e["sp"]))]
+        after.conds = after.conds[:nconds]
+        rt = self.ty(frame, e["ty"])
+        is_res = rt[0] == "adt" and rt[1] == "core::result::Result"
+        out = []
+        opaque = None
+        item = val
+        if isinstance(val, tuple) and val and val[0] == "adt" and val[1] == "core::result::Result":
+            item = dict(val[3]).get(0, ("tuple", ())) if val[2] == 0 else None
+        elif is_res and mode != "for_each":
+            opaque = val
+            item = ("tryok", val)
+        if mode == "collect":
+            vt = rt[2][0] if is_res else rt
+            et = vt[2][0] if (vt[0] == "adt" and vt[2]) else None
+            v = ("vec", et, cnt, ("loop", lid, ("pushed", ("empty",), item)))
+        else:
+            v = ("tuple", ())
+        if opaque is not None and self.explicit_try:
+            s2 = after.fork()
+            s2.events.append(("TryErr", frame.crate.span(e["sp"]), opaque))
+            out.append((s2, ("adt", "core::result::Result", 1, ((0, ("errof", opaque)),))))
+        out.append((after, ("adt", "core::result::Result", 0, ((0, v),)) if (is_res and mode != "for_each") else v))
+        return out
+
     def _find_while_let_next(self, e):
         """`while let Some(p) = it.next() { body }`  =  loop { if let Some(p) = next(it) { body } else { break } }"""
         if not isinstance(e, dict):
@@ -1205,6 +1271,27 @@ class Interp:
             return [(s, self.align_of(targs[0]))]
         if krate == "core" and name == "type_name" and targs:
             return [(s, ("typename", targs[0]))]
+        # ---- slice splitting = the two range indexings (bounds-checked: panics when n > len)
+        if krate == "core" and name in ("split_at", "split_at_mut") and len(args) == 2:
+            base, n = self.load_ref(s, args[0]), self.load_ref(s, args[1])
+            s.events.append(("MayPanic", "index", sp, (base, n)))
+            return [(s, ("tuple", (("index", base, ("adt", "core::ops::range::RangeTo", 0, ((0, n),))),
+                                   ("index", base, ("adt", "core::ops::range::RangeFrom", 0, ((0, n),))))))]
+        if krate == "core" and name == "size_of_val" and len(args) == 1:
+            at = strip_refs(self.ty(frame, e["args"][0]["ty"]))
+            v = self.load_ref(s, args[0])
+            if at[0] == "slice":
+                return [(s, self.binop("Mul", self.length_of(v), self.size_of(at[1])))]
+            if at[0] == "prim" and at[1] == "str":
+                return [(s, self.length_of(v))]
+            return [(s, self.size_of(at))]
+        # ---- iterator adaptors whose work is a closure
+        if krate == "core" and name == "map" and len(args) == 2 and isinstance(args[1], tuple) and args[1] and args[1][0] == "closure" and "iter" in dj.get("n", "").lower():
+            return [(s, ("mapiter", self.load_ref(s, args[0]), args[1]))]
+        if krate == "core" and name == "collect" and len(args) == 1 and isinstance(args[0], tuple) and args[0] and args[0][0] == "mapiter":
+            return self.closure_loop(frame, s, e, args[0][1], args[0][2], "collect")
+        if krate == "core" and name in ("try_for_each", "for_each") and len(args) == 2 and isinstance(args[1], tuple) and args[1] and args[1][0] == "closure":
+            return self.closure_loop(frame, s, e, self.load_ref(s, args[0]), args[1], name)
         # ---- length
         if krate in ("core", "alloc") and name in ("len", "iter", "iter_mut") and len(args) == 1:
             at = strip_refs(self.ty(frame, e["args"][0]["ty"]))
